@@ -216,7 +216,7 @@ package commitlog
 //@   call Replace requires [C02:epochs-that-started-while-the-clean-ran-are-carried-over] ghost.epochsCarriedOver
 //@   assumes l.leaderEpochCache != nil && wfEpochs(l.leaderEpochCache)
 //@   call clean requires [cleans-the-snapshot] arg1 == oldSegments
-//@   call rebaseSegments requires [every-segment-appended-meanwhile-is-kept] arrOf(arg1) == arrOf(newSegments) && offOf(arg1) == offOf(newSegments) + len(oldSegments) && len(arg1) == len(newSegments) - len(oldSegments) && arg2 == cleaned
+//@   call rebaseSegments requires [C09:every-segment-appended-meanwhile-is-kept] arrOf(arg1) == arrOf(newSegments) && offOf(arg1) == offOf(newSegments) + len(oldSegments) && len(arg1) == len(newSegments) - len(oldSegments) && arg2 == cleaned
 
 // ---------------------------------------------------------------------------------------------
 // Leader epoch cache (property C02; also C05, C09): leader epoch -> first offset of that epoch
